@@ -370,4 +370,126 @@ theorem C05t_submitted_while_suspended_runs (h1 h2 : HSt) (log : List Ev) (hr : 
   have hf := C05t_wait_stop_return h2 hr2 hm hns
   exact ⟨hf, hf.2.2.2.2.2.2.2.2.2.2.1, hf.2.2.2.2.2.2.2.2.2.2.2.1, hf.2.2.2.2.2.2.2.2.2.1⟩
 
+/-- **`Holding` states are ends of maximal runs too.**  A reachable state in which the runtime is
+    suspended and holds work that cannot move without a worker (nothing in flight, staged or being
+    destroyed; every live task is waiting for its next phase), with the controller at the end of its
+    script, polling in `wait()` or polling in `stop()`'s drain check, accepts only stutters: it is a
+    legal, non-terminating shape of the model. -/
+theorem C05t_holding_is_maximal (h : HSt) (hr : HReach h) (hh : Holding h)
+    (h0 : h.s.creating = 0 ∧ h.s.staged = 0 ∧ h.s.destroying = 0)
+    (htp : ∀ o, h.s.live o = true → h.tp o = 0 ∨ h.tp o = 3) : Maximal h := by
+  obtain ⟨hph, hcnt, hshape⟩ := hh
+  obtain ⟨c1, c2, c3⟩ := h0
+  have hall := allInv_of_reach hr
+  obtain ⟨na, no, script, kids, yields, log, _, hl⟩ := hr
+  have hreach := (C05t_refines na no script kids yields log h hl).2
+  have hcur := (C05.C05_suspended_no_body h.s hreach hph).2.1
+  have hasl := (C05.C05_suspended_no_body h.s hreach hph).1
+  have hstop := hall.b.stop
+  have hsf := hall.i.stopPc
+  intro e h' hs
+  cases e <;> (
+    obtain ⟨s', l, h1, h2, h3⟩ := hstep_some _ _ _ hs
+    simp only [step] at h1
+    simp only [led] at h2
+    simp_all [neutral, b2n]) <;> (try (repeat' split at h2) <;> simp_all [b2n]) <;> (try omega) <;> (try grind)
+
+/-! ## Non-vacuity -/
+
+/-- one incarnation with one worker: a task that spawns a child, a suspension during which a task is
+    submitted (and staged), the resume, a `wait()` that first polls a busy counter while the queued task
+    runs (and yields once), finalize, stop -/
+def exScript : List Call := [.start 1 0, .submit, .suspend, .submit, .resume, .wait, .finalize, .stop]
+
+def exLog : List Ev :=
+  [.reqCfg 0 1 0, .rtState 0 rsInitialized, .rtState 0 rsPreStartup, .worker 1, .rtState 0 rsRunning, .seenCfg 0 1 0,
+   -- submit; the task spawns a child, both run to completion
+   .inc 0 1, .new 0 0, .phaseBegin 1 0, .body 1 0, .inc 1 2, .new 1 1, .body 1 0, .phaseEnd 1 0, .destroy 1 0, .dec 1 1,
+   .phaseBegin 1 1, .body 1 1, .body 1 1, .phaseEnd 1 1, .destroy 1 1, .dec 1 0,
+   -- suspend; submit while suspended (staged); resume
+   .suspendEnter 0, .sleep 1, .rtState 0 rsSleeping, .inc 0 1, .stage 0, .resumeEnter 0, .wake 1, .rtState 0 rsRunning,
+   -- wait: two busy polls (stutter), the queued task runs (one yield), idle sample, return
+   .waitEnter 0, .sample 0 1 0, .unstage 1, .new 1 0, .sample 0 1 0, .phaseBegin 1 0, .body 1 0, .phaseEnd 1 0,
+   .phaseBegin 1 0, .body 1 0, .phaseEnd 1 0, .destroy 1 0, .dec 1 0, .sample 0 0 0, .waitExit 0,
+   -- finalize; stop
+   .fin 0, .stopEnter 0, .waitFin 0, .sample 0 0 0, .waited 0 0, .rtState 0 rsStopped, .stopExit 0 0]
+
+/-- the example is accepted; it ends with the script exhausted, the controller idle, no runtime,
+    counter 0, three units started / finished / entered / left; the remaining measure 5 is unused
+    slack (two units were not staged, `stop()` was entered on a running runtime: no worker to wake) -/
+example : (runLog hstep (hinit 2 3 exScript 1 1) exLog).map
+    (fun h => (h.script.length, h.s.cnt, h.s.started, h.s.finished)) = some (0, 0, 3, 3) := by decide
+example : (runLog hstep (hinit 2 3 exScript 1 1) exLog).map
+    (fun h => (h.bodies, h.exits, phi h)) = some (3, 3, 5) := by decide
+example : (runLog hstep (hinit 2 3 exScript 1 1) exLog).map
+    (fun h => (h.cpc == .idle, h.s.ph == .none, h.s.spc == .out)) = some (true, true, true) := by decide
+
+/-- the bound of `C05t_bounded` is attained with equality: 48 non-neutral events + final measure 5
+    = initial potential 53 = `scost 0 exScript + 10 kids + 2 yields` (the log has 52 events: 4 stutters) -/
+example : nMoves exLog = 48 ∧ exLog.length = 52 ∧ scost 0 exScript + 10 * 1 + 2 * 1 = 53 := by decide
+
+/-- the history satisfies the documented preconditions -/
+example : HOk 2 3 exScript 1 := ⟨by simp [exScript, wf], by decide⟩
+
+/-- the measure along the run: 53 at the start, 49 when `start` has returned -/
+example : phi (hinit 2 3 exScript 1 1) = 53 := by decide
+example : (runLog hstep (hinit 2 3 exScript 1 1) (exLog.take 6)).map phi = some 49 := by decide
+
+/-- while suspended (after 27 events: the second submit is staged) the body counts are those of the
+    first two tasks; at the end all three have run: the task submitted while suspended ran after the
+    resume -/
+example : (runLog hstep (hinit 2 3 exScript 1 1) (exLog.take 27)).map
+    (fun h => (h.s.ph == .suspended, h.s.cnt, h.s.staged, h.bodies)) = some (true, 1, 1, 2) := by decide
+example : (runLog hstep (hinit 2 3 exScript 1 1) (exLog.take 27)).map
+    (fun h => (h.s.started, h.nsusp, h.nres)) = some (3, 1, 0) := by decide
+
+/-- **The excluded history (witness).**  `finalize; suspend; submit; stop`: `stop()` is entered on a
+    suspended runtime that holds one queued task.  The log below is accepted; the state it reaches has
+    the controller inside `stop()` at the drain check (`waitedFin`), phase `suspended`, counter 1 … -/
+def holdScript : List Call := [.start 1 0, .finalize, .suspend, .submit, .stop]
+def holdLog : List Ev :=
+  [.reqCfg 0 1 0, .rtState 0 rsInitialized, .worker 1, .rtState 0 rsRunning, .fin 0, .suspendEnter 0, .sleep 1,
+   .rtState 0 rsSleeping, .inc 0 1, .new 0 0, .stopEnter 0, .waitFin 0, .sample 0 1 0, .sample 0 1 0]
+def holdWitness : HSt := (runLog hstep (hinit 2 1 holdScript 0 0) holdLog).getD (hinit 0 0 [] 0 0)
+
+theorem holdWitness_accepted : (runLog hstep (hinit 2 1 holdScript 0 0) holdLog).isSome = true := by decide
+
+theorem holdWitness_shape :
+    holdWitness.s.ph = .suspended ∧ holdWitness.cpc = .stop ∧ holdWitness.s.spc = .waitedFin ∧
+    holdWitness.s.cnt = 1 ∧ holdWitness.s.creating = 0 ∧ holdWitness.s.staged = 0 ∧
+    holdWitness.s.destroying = 0 ∧ holdWitness.s.live 0 = true ∧ holdWitness.tp 0 = 0 ∧ holdWitness.s.no = 1 ∧
+    holdWitness.script.length = 0 ∧ holdWitness.bodies = 0 := by decide
+
+theorem holdWitness_reach : HReach holdWitness := by
+  refine ⟨2, 1, holdScript, 0, 0, holdLog, ⟨by simp [holdScript, wf], by decide⟩, ?_⟩
+  have := holdWitness_accepted
+  simp only [holdWitness]
+  cases hx : runLog hstep (hinit 2 1 holdScript 0 0) holdLog with
+  | none => rw [hx] at this; cases this
+  | some v => rfl
+
+/-- … **and it is the end of a maximal run in which `stop()` has NOT returned**: the history respects
+    every precondition the model encodes (`HOk`), the state is reachable and maximal (only the busy
+    poll is accepted), the controller is still inside `stop()`, the submitted task never ran.  So
+    `C05t_wait_stop_return` needs its hypothesis "the run does not end on a suspended runtime". -/
+theorem C05t_stop_suspended_pending_is_maximal :
+    HReach holdWitness ∧ Maximal holdWitness ∧ Holding holdWitness ∧ ¬ Final holdWitness ∧
+    holdWitness.cpc = .stop ∧ holdWitness.s.spc = .waitedFin ∧ holdWitness.s.cnt = 1 ∧ holdWitness.bodies = 0 ∧
+    (hstep holdWitness (.sample 0 1 0)).isSome = true := by
+  have hs := holdWitness_shape
+  obtain ⟨s1, s2, s3, s4, s5, s6, s7, s8, s9, s10, s11, s12⟩ := hs
+  have hhold : Holding holdWitness := ⟨s1, by omega, Or.inr (Or.inr ⟨s2, s3⟩)⟩
+  have hmax : Maximal holdWitness := by
+    apply C05t_holding_is_maximal _ holdWitness_reach hhold ⟨s5, s6, s7⟩
+    intro o hl
+    have ho := (allInv_of_reach holdWitness_reach).i.liveBound o hl
+    have : o = 0 := by omega
+    subst this
+    exact Or.inl s9
+  refine ⟨holdWitness_reach, hmax, hhold, ?_, s2, s3, s4, s12, by decide⟩
+  intro hf
+  have := hf.2.1
+  rw [s2] at this
+  cases this
+
 end PikaVerif.C05t
